@@ -179,4 +179,67 @@ def c09(chk):
     ctx_model(chk, "small", {"history", "panic"}, workers=12 if chk.tier == "quick" else 16)
 
 
-CHECKS = {"C09": c09, "C08": c08, "C11": c11, "C12": c12, "C04": c04, "C10": c10, "C03": c03, "C01": c01, "C02": c02, "C05": c05, "C13": c13, "C14": c14}
+WORD_CHARS = [48, 49, 57, 97, 101, 69, 120, 102, 46, 95]
+
+
+def lex_word_candidates(maxlen):
+    """Candidate float words for MC_Lex family "words": every source string of the model and every run of its
+    '+'/'-'-delimited segments.  An over-approximation of what the lexer of the specification can ask for; primgen keeps
+    those that Rust parses as a double.  (Mirrors the generator `Sources` of MC_Lex.tla, not the lexer.)"""
+    import itertools
+    import re
+    ok = re.compile(r"^[0-9.eE+-]*[0-9][0-9.eE+-]*$")
+    cands = set()
+    chars = [chr(c) for c in WORD_CHARS]
+    special = ['inf', 'Inf', 'INF', 'infinity', 'Infinity', 'nan', 'NaN', 'NAN', 'true', 'false', 'True', 'FALSE', '0x7fffffffffffffff', '0x8000000000000000', '0xffffffffffffffffff', '9223372036854775807', '9223372036854775808', '99999999999999999999', '0X1f', '1_000', '0x', '0xg', '1e400', '1e-400', '4.9e-324', '1.7976931348623157e308', '0.1', '00012', '0x00ff', '1e5', '1E5', '1.e5', '.5e1', '5.', 'inf1', 'nanx', 'infinit']
+    for s in itertools.chain(special, ("".join(t) for n in range(1, maxlen + 1) for t in itertools.product(chars, repeat=n))):
+        if True:
+            for src in (s, s + "-" + s, s + "+" + s, "a-" + s, s + "e-3", "0x" + s):
+                if not ok.match(src):
+                    continue
+                segs = re.split(r"([+-])", src)
+                for i in range(0, len(segs), 2):
+                    for j in range(i, len(segs), 2):
+                        w = "".join(segs[i:j + 1])
+                        if ok.match(w):
+                            cands.add(w)
+    return [[ord(c) for c in w] for w in sorted(cands)]
+
+
+def c06(chk):
+    chk.rule = ("every word over {0 1 9 a e E x f . _} up to the length bound, alone and embedded (w-w, w+w, a-w, we-3, 0xw, "
+                "'w 1'), and every string body over {a \" \\ / * newline space + a-umlaut emoji} quoted with and without "
+                "escaping; non-trivial = distinct sources the specification classifies as well-formed")
+    chk.trusted.append("Rust's f64::from_str for the value of a float-looking word (primgen); the specification decides "
+                       "segmentation and classification")
+    wl, sl = (5, 5) if chk.tier == "quick" else (6, 6)
+    prims = vf.make_prims("lexwords", chk.outdir, extra={"words": lex_word_candidates(wl)})
+    info, summ = vf.run_model(f"lex_words{wl}", "MC_Lex.tla", {"Family": "words", "MaxLen": wl}, chk.outdir,
+                              workers=12 if chk.tier == "quick" else 16, env_extra={"PRIMS": prims}, timeout=3000)
+    chk.add_model(info, summ, {"literal", "panic"}, ["wf"], note=f"MC_Lex.tla words up to length {wl} x 7 embeddings")
+    info, summ = vf.run_model(f"lex_strings{sl}", "MC_Lex.tla", {"Family": "strings", "MaxLen": sl}, chk.outdir,
+                              workers=12 if chk.tier == "quick" else 16, timeout=3000)
+    chk.add_model(info, summ, {"literal", "panic"}, ["wf"], note=f"MC_Lex.tla string bodies up to length {sl} x 3 quotings")
+
+
+def c07(chk):
+    chk.rule = ("every token sequence up to the length bound over a 14-token alphabet (words, a string, the characters of "
+                "compound operators, / and *) x every assignment of separators (whitespace characters, block and line "
+                "comments, nothing) to the gaps; cases = the admissible assignments (no fusion by the syntactic rule); "
+                "non-trivial = distinct (sequence, assignment) pairs")
+    import itertools
+    pieces = ["1", "3", "x", "2e", "+", "-"]      # fused neighbours of inadmissible assignments also reach the lexer of the spec
+    cands = {"".join(t) for n in range(1, 6) for t in itertools.product(pieces, repeat=n)}
+    prims = vf.make_prims("sep", chk.outdir, extra={"words": [[ord(c) for c in w] for w in sorted(cands)]})
+    if chk.tier == "quick":
+        runs = [(3, "small")]
+    else:
+        runs = [(3, "large"), (4, "small")]
+    for maxlen, sepset in runs:
+        info, summ = vf.run_model(f"sep_{maxlen}_{sepset}", "MC_Sep.tla", {"MaxLen": maxlen, "SepSet": sepset}, chk.outdir,
+                                  workers=12 if chk.tier == "quick" else 16, env_extra={"PRIMS": prims}, timeout=3000)
+        chk.add_model(info, summ, {"separators", "panic"}, ["two_renderings"],
+                      note=f"MC_Sep.tla: sequences up to length {maxlen} x separator set '{sepset}'")
+
+
+CHECKS = {"C07": c07, "C06": c06, "C09": c09, "C08": c08, "C11": c11, "C12": c12, "C04": c04, "C10": c10, "C03": c03, "C01": c01, "C02": c02, "C05": c05, "C13": c13, "C14": c14}
